@@ -82,6 +82,7 @@ def c03(ctx):
                exactness_failed=exact_bad, exactness_skipped_symlinked_dirs=exact_skipped, exactness_problem_kinds=pk)
     cli_update_several(ctx)
     cli_profile_exact(ctx)
+    two_saves_one_loader(ctx, 'C03')
 
 
 def cli_profile_exact(ctx):
@@ -1118,6 +1119,7 @@ def c13(ctx):
                     'runs_not_completing': len(seconds) - rule_ok - rule_bad})
     cli_profile_format(ctx)
     forced_save_double_refs(ctx)
+    two_saves_one_loader(ctx, 'C13')
 
 
 def forced_save_double_refs(ctx):
@@ -1251,3 +1253,67 @@ def cli_profile_format(ctx):
             else:
                 ok += 1
     ctx.count('cli:profile-format', n, n, dist={'runs_following_watermark_and_format': ok, 'compressed_manifests_by_format': seen})
+
+
+def two_saves_one_loader(ctx, pid):
+    """one loader object saved twice (a long-running tool: update, save with a watermark that renames sub-Manifests, further single-path
+    updates, save again): the second save still writes a referenced Manifest before the Manifest that references it - also when the
+    first save renamed one of them - so a fresh verification succeeds (finding D32)"""
+    r = ctx.rng('twosaves')
+    cases = []
+    # the minimal input of finding D32 first: sub/Manifest references sub/Manifest.extra, both renamed by the first save
+    c = GT.Case()
+    t = GT.Tree()
+    t.add_dir('sub')
+    t.add_file('sub/f', b'1\n')
+    t.add_file('sub/Manifest.extra', (ET.entry_line('DATA', 'f', b'1\n', ['MD5']) + '\n').encode())
+    sub = ET.entry_line('MANIFEST', 'Manifest.extra', (ET.entry_line('DATA', 'f', b'1\n', ['MD5']) + '\n').encode(), ['MD5']) + '\n'
+    t.add_file('sub/Manifest', sub.encode())
+    t.add_file('Manifest', (ET.entry_line('MANIFEST', 'sub/Manifest', sub.encode(), ['MD5']) + '\n').encode())
+    t.hardlinks = True
+    c.tree = t
+    c.meta.update(dirs=['', 'sub'], files=['sub/f'], manifests=['Manifest', 'sub/Manifest', 'sub/Manifest.extra'], ignored=[], mutations=['pinned:D32'], order_seed=0)
+    c.opts = (['MD5'], False, None, None, 'default', None, None, False)
+    c.ops = [['verify', '', 1, []], ['reload'], ['save', [], 1, [], [0], []], ['update_path', 'sub/f', 'DATA', [['SHA1']]], ['save', [], 0, [], [0], []],
+             ['files'], ['loaded'], ['reload'], ['verify', '', 1, []]]
+    c.hash_names = set(GT.GOOD_HASHES)
+    cases.append(c)
+    for _ in range(200 if ctx.tier == 'quick' else 2000):
+        while True:
+            c = GT.Case()
+            t, files, written = GT.build_consistent(r, c, allow_multi=True, dups=False, double_refs=0.2)
+            if files and not name_clash(t, written) and not t.link_paths():
+                break
+        c.meta['mutations'] = []
+        c.meta['order_seed'] = r.randint(0, 3)
+        t.hardlinks = True
+        c.hash_names = set(GT.GOOD_HASHES)
+        hs = r.choice(PT.HASHSETS)
+        c.opts = (hs, r.random() < 0.5, None, None, 'default', None, None, False)
+        w1, w2 = r.choice([0, 0, 10**6]), r.choice([0, 10**6, None])
+        fmt = r.choice(['gz', 'bz2', 'xz', None])
+        other = [['SHA1']] if hs != ['SHA1'] else [['MD5']]
+        mid = [['update_path', p, 'DATA', other] for p in r.sample(sorted(files), r.randint(1, min(3, len(files))))]
+        c.ops = [['verify', '', 1, []], ['reload'], ['save', [], 1, [], [w1], [fmt] if fmt else []]] + mid + \
+                [['save', [], r.choice([0, 0, 1]), [], [w2] if w2 is not None else [], [fmt] if fmt else []], ['files'], ['loaded'], ['reload'], ['verify', '', 1, []]]
+        c.meta['watermarks'] = [w1, w2]
+        c.meta['fmt'] = fmt
+        cases.append(c)
+    with ET.Scratch() as sc:
+        res = PT.run_cases(ctx, cases, 'tree:two-saves-one-loader', sc)
+    PT.reclassify(ctx, f'two saves on one loader object differ from the reference ({pid})')
+    good = 0
+    for c, i, m in res:
+        if i[0] != 'ok' or len(i[1]) != len(c.ops):
+            continue
+        out = i[1]
+        if not (out[0][0] == 'ok' and out[0][1][0] == 1) or any(x[0] != 'ok' for x in out[1:-1]):
+            continue          # the tree as generated does not verify, or an operation failed (compared with the model only)
+        replay = {'meta': meta_of(c), 'ops': c.ops, 'opts': list(c.opts), 'impl': slim(out), 'tree': PT.describe(c.tree)}
+        v = out[-1]
+        if not (v[0] == 'ok' and v[1][0] == 1):
+            if not known_finding(ctx, pid, c, 'fresh-verify', v):
+                ctx.violation('spec', f'after two saves on one loader object the tree does not verify: {str(v)[:200]}', replay)
+        else:
+            good += 1
+    ctx.count('tree:two-saves-one-loader', len(cases), len(cases), dist={'runs_verifying_afterwards': good})
